@@ -457,6 +457,13 @@ func (p *parser) InstantiateGenericFunction(genericFunc *ast.FuncDecl, genericTy
 		isCurrentFunctionBool: ddptypes.Equal(decl.ReturnType, ddptypes.WAHRHEITSWERT),
 		Operators:             context.Operators,
 	}
+	// the resolver and typechecker mark the module they are given as faulty on every error,
+	// but the errors of an instantiation are only collected here (the caller may still discard this candidate):
+	// the module that declares the generic function must stay as it was
+	if declaringAst := genericFunc.Mod.Ast; declaringAst != nil {
+		defer func(wasFaulty bool) { declaringAst.Faulty = wasFaulty }(declaringAst.Faulty)
+	}
+
 	// prepare the resolver and typechecker with the inbuild symbols and types
 	declParser.resolver = resolver.New(declParser.module, declParser.Operators, declParser.errorHandler, &declParser.panicMode)
 	declParser.typechecker = typechecker.New(declParser.module, declParser.Operators, declParser.errorHandler, declParser, &declParser.panicMode)
